@@ -476,15 +476,30 @@ func sameLoad(a, b ssa.Value) bool {
 	}
 	ba, fa, oka := ir.FieldLoad(a)
 	bb, fb, okb := ir.FieldLoad(b)
-	if !oka || !okb || ba != bb || fa != fb {
+	if !oka || !okb || fa != fb {
 		return false
 	}
-	al, isAl := ba.(*ssa.Alloc)
-	if !isAl {
+	if ba != bb && !sameLoad(ba, bb) {
 		return false
 	}
-	fields, _ := litFields(al)
-	return len(fields[fa]) == 0
+	if al, isAl := ba.(*ssa.Alloc); isAl {
+		fields, _ := litFields(al)
+		return len(fields[fa]) == 0
+	}
+	// any base: the field must not be stored to anywhere in the function
+	ia, ok := a.(ssa.Instruction)
+	if !ok {
+		return false
+	}
+	written := false
+	ir.Instrs(ia.Parent(), func(in ssa.Instruction) {
+		if st, isSt := in.(*ssa.Store); isSt {
+			if _, f, isF := ir.FieldAddr(st.Addr); isF && f == fa {
+				written = true
+			}
+		}
+	})
+	return !written
 }
 
 // lookupGuard finds a comma-ok lookup of key (or an equal load) in map field
